@@ -322,7 +322,7 @@ func TestC06_Collect(t *testing.T) {
 // ---- Wait racing with Unsubscribe / terminal --------------------------------------------------------
 
 func TestC06_WaitCloseRace(t *testing.T) {
-	reps := 60000
+	reps := 240000
 	if rt.Thorough() {
 		reps = 1500000
 	}
